@@ -112,12 +112,36 @@ func genC13CSSAll(t *rapid.T) *Case {
 	return c
 }
 
+// genC13History: inputs whose processing leaves something behind if per-call state is kept beyond
+// the call (dropped elements that are never closed, shorthand values that are accepted only after
+// backtracking), next to inputs whose result depends on such state being fresh.
+func genC13History(t *rapid.T) *Case {
+	spec := &Spec{Base: "New", Ops: []Op{
+		{Kind: "AllowAttrs", Attrs: []string{"href"}, ValRe: -1, Scope: "els", Names: []string{"a"}},
+		{Kind: "AllowAttrs", Attrs: []string{"color"}, ValRe: -1, Scope: "els", Names: []string{"font"}},
+		{Kind: "AllowAttrs", Attrs: []string{"style", "id"}, ValRe: -1, Scope: "els", Names: []string{"p", "span"}},
+		{Kind: "AllowStyles", Attrs: []string{"margin", "border", "font", "background", "padding", "transition"}, ValRe: -1, Scope: "global"},
+		{Kind: "AllowElements", Names: []string{"b", "div"}, ValRe: -1}, {Kind: "AllowRelativeURLs", B: true, ValRe: -1}}}
+	pool := []string{`<p>see <a>this</p>`, `<font><a href="/x">t</font> u`, `<a><font>x`, `<font color="red"><a>y</font>`, `<a href="/y"><font>z</a></font>`, `<font><font color="red">q</font>`,
+		`<a><a href="/z">w</a>`, `<p><font>`, `<b><a>`, `<a href="/k">k</a>`, `<div><font><a href="/m">m</div>`,
+		`<p style="margin: auto  10px">a</p>`, `<p style="margin: 5px 10px 20px">b</p>`, `<p style="border: 1px  solid red">c</p>`, `<p style="margin: 1px 2px 3px 4px">d</p>`,
+		`<p style="padding: 1px  2px 3px">e</p>`, `<p style="padding: 1px 2px 3px">f</p>`, `<p style="font: italic  bold 12px arial">g</p>`, `<p style="font: italic bold 12px arial">h</p>`,
+		`<p style="border: 1px solid red">i</p>`, `<p style="transition: width  1s">j</p>`, `<p style="transition: width 1s ease 2s">k</p>`}
+	c := &Case{Spec: spec, Kind: "history"}
+	for _, i := range rapid.Permutation(pool).Draw(t, "order") {
+		c.Inputs = append(c.Inputs, BStr(i))
+	}
+	return c
+}
+
 func genC13(t *rapid.T) *Case {
-	switch rapid.IntRange(0, 5).Draw(t, "overlapCase") {
+	switch rapid.IntRange(0, 6).Draw(t, "overlapCase") {
 	case 0, 1:
 		return genC13Overlap(t)
 	case 2:
 		return genC13CSSAll(t)
+	case 6:
+		return genC13History(t)
 	}
 	spec := genSpec(t, &SpecOpts{Kinds: c13Kinds, MinOps: 3, MaxOps: 14})
 	m := BuildModel(spec)
